@@ -9,6 +9,7 @@ from sim.ctrace import CRecorder, dispatch_case
 from sim.scenarios import Pair, SCRIPTED, scripted, random_walk
 from sim.trace import hdr_fields
 from sim.world import LoopEscape
+from props import hdl
 from vlib import core
 from vlib.core import Failure
 
@@ -243,7 +244,7 @@ def correspond(ctx):
                              f'{name} dispatch #{i}: implementation {cases[gi][1]} / model {model_out[-500:]}',
                              {'scenario': name, 'conf': conf, 'seed': seed, 'actions': actions, 'input': cases[gi][0],
                               'impl': cases[gi][1]}))
-    return fails
+    return fails + hdl.tie(ctx)
 
 
 def oracle(ctx, deep):
@@ -281,7 +282,7 @@ CHECK = core.Check(
          'before, header, process_message outcome -> table after, handler, kernel deletions; non-trivial = more than one '
          'IKE_SA in the table, an unparsable header or an unrouted datagram; the oracle probes random/unknown/swapped '
          'SPIs and the status query after every event',
-    trusted_base=sc.TRUSTED,
+    trusted_base=sc.TRUSTED + hdl.TRUSTED,
     assumptions=['Python object identity of IkeSa objects is modelled by a creation index; the object-identity laws '
                  '(an entry point returns the same object) are hypotheses of the theorems and hold by construction of '
                  'the correspondence instance'],
